@@ -402,6 +402,8 @@ func c02(x *mon.Ctx) {
 		x.Require("intel-sample-under-embedded-root", 2, 0, 2)
 	}
 
+	systemStoreIsNotARootOfTrust(x)
+
 	// ---- root-of-trust configurations
 	dir := filepath.Join(x.OutDir, "rot")
 	if x.OutDir == "" {
